@@ -224,8 +224,14 @@ def rule_obligations():
                 leak = 'unknown action kind %r' % (action,)
             w = None
             if leak:
-                err = lossless(wit) or lossless(wit + '\n') or \
-                    lossless('\n' + wit + 'tail\n')
+                err = None
+                for cand in (wit, wit + '\n', '\n' + wit + 'tail\n',
+                             '#...diff:\n' + wit,
+                             '#...diff: length=1\n' + wit + 'x\n'):
+                    err = lossless(cand)
+                    if err:
+                        wit = cand
+                        break
                 w = {'text': wit, 'error': 'rule %s: %s%s' % (
                     rid, leak, ('; ' + err) if err else '')}
                 w['replayed'] = bool(err)
